@@ -503,6 +503,75 @@ func c02Worker(c *core.Collector, x *Ctx) {
 			}
 		}
 	})
+	// ---- (c1a) pseudo-escapes: a payload byte v is replaced on the wire by the pair 7D x with x chosen so that a "restore =
+	// 0x7C + x" formula (correct for x = 1, 2) yields v again: the frame then has a matching check code and length for every x,
+	// but only 7D 01 and 7D 02 are escape pairs — every other pair makes the string malformed. All 254 other x, at a header
+	// position, in the body and as the check code.
+	{
+		core.ParallelFor(256*2*3, ncpu(), func(i int) {
+			x := byte(i % 256)
+			if x == 1 || x == 2 {
+				return
+			}
+			v2019 := i/256%2 == 1
+			where := i / 512 // 0 header (message ID high byte), 1 body, 2 check code
+			r := core.NewRand(c.Seed, "c02pe", uint64(i))
+			v := byte(0x7c + int(x)) // (wraps for x >= 0x84)
+			n := 6
+			if v2019 {
+				n = 10
+			}
+			bcd := make([]byte, n)
+			for k := range bcd {
+				bcd[k] = byte(r.Intn(10))<<4 | byte(r.Intn(10))
+			}
+			body := r.Bytes(3 + r.Intn(20))
+			for k := range body {
+				if body[k] == 0x7d || body[k] == 0x7e {
+					body[k] = 0x11
+				}
+			}
+			q := ref.Params{ID: 0x0200, V2019: v2019, VersionByt: 1, BCD: bcd, Serial: uint16(0x100 + r.Intn(0x7000)&0x7c7c), Body: body}
+			pos := 0
+			switch where {
+			case 0:
+				q.ID = uint16(v)<<8 | 0x05
+			case 1:
+				q.Body[1] = v
+			}
+			pp := ref.Payload(q)
+			switch where {
+			case 0:
+				pos = 0
+			case 1:
+				pos = len(pp) - 1 - len(q.Body) + 1
+			case 2:
+				// steer the check code to v through the last body byte
+				pp[len(pp)-2] ^= pp[len(pp)-1] ^ v
+				pp = c02Fix(pp)
+				pos = len(pp) - 1
+			}
+			if pp[pos] != v {
+				return
+			}
+			wire := []byte{0x7e}
+			for k, b := range pp {
+				switch {
+				case k == pos:
+					wire = append(wire, 0x7d, x)
+				case b == 0x7d:
+					wire = append(wire, 0x7d, 0x01)
+				case b == 0x7e:
+					wire = append(wire, 0x7d, 0x02)
+				default:
+					wire = append(wire, b)
+				}
+			}
+			wire = append(wire, 0x7e)
+			check(wire, "pseudo-escape", true)
+			c.Count("pseudo_escape_cases", 1)
+		})
+	}
 	// ---- (c1b) special-count sweep (as in C01, here for the decoder): valid frames whose payload holds exactly k bytes that travel
 	// escaped, k = 0..140 and around 256/512/1023, checksum steered to 7e / 7d / other: the unescaper's output sizing depends on k
 	{
